@@ -229,7 +229,25 @@ def foreign_domain(res, model_ok):
                               "fields": ["the foreign request was not counted"]})
 
 
+def legal_table(res, model_ok):
+    """the oracle's table of legal steps (LEGAL plus the two steps of a refused order that never left) against the model's
+    `Status.legalStep` - the table `legal_transitions_whole_run` is stated with - for every pair of statuses"""
+    if not model_ok:
+        return
+    names = ["PENDING", "CANCELLING", "UPDATING", "REPLACING", "EXECUTABLE", "EXECUTION_COMPLETE", "EXPIRED", "VIOLATION"]
+    pairs = [(a, b) for a in [None] + names for b in names]
+    answers = common.run_driver(["status.legal %s %s" % (a or "-", b) for a, b in pairs])
+    for (a, b), ans in zip(pairs, answers):
+        mine = (a, b) in LEGAL or (a == "VIOLATION" and b in ("PENDING", "VIOLATION"))
+        res.evaluations += 1
+        res.distribution["legal-table"] += 1
+        if ans != ("T" if mine else "F"):
+            res.disagree({"request": "status.legal %s %s" % (a or "-", b), "model": ans, "implementation": "T" if mine else "F",
+                          "case": {"table": "oracle LEGAL vs Status.legalStep"}})
+
+
 def run(res, tier, seed, model_ok, search):
+    legal_table(res, model_ok)
     res.rule = ("whole simulation runs (fills, suspension lapses, removals, turn in-play, close; success / failure responses; requests fired at "
                 "orders in every status incl. in flight and complete; responses arriving after completion); every BaseOrder._update_status call "
                 "is wrapped and checked against the lifecycle table, every request compared with a before/after snapshot. non-trivial = a request "
